@@ -10,6 +10,7 @@ CONSTANTS
   Lookback <- TraceLookback
   MaxPast <- TraceMaxPast
   U <- TraceU
+  EverTooDeep <- TraceEverTooDeep
   OOT <- TraceOOT
   MFD <- TraceMFD
   Dev <- TraceDev
